@@ -32,3 +32,10 @@ func (P *Prog) schemaVars(key string) map[string]string {
 	}
 	return sigVars(fn)
 }
+
+// solverImplies asks the solver whether the path condition entails t.
+func (x *Exec) solverImplies(st *State, t Term) bool {
+	c := st.clone()
+	c.assume(Not(t))
+	return !x.solverFeasible(c)
+}
